@@ -13,12 +13,13 @@ SPEC = dict(
                 "output partitions the BMP part of the mapping and never trips its assertion; the encoded delta is gid-cp modulo 2^16 and the "
                 "conversion panics exactly on [32768,65535]; format-12 iteration yields exactly the sorted input pairs and the groups are "
                 "ascending, disjoint, maximal; format 12 is emitted iff some char is beyond the BMP (format 4 iff some char is inside); conflicts "
-                "are reported iff real. 'Building succeeds' is refuted for the unchanged code (format4_build_refuted, finding F-2). The model is "
+                "are reported iff real; skrifa Charmap::map through subtable selection equals the mapping, and Charmap::mappings equals the sorted "
+                "input when a format-12 subtable exists (U+10FFFF excluded, see finding). 'Building succeeds' is refuted for the unchanged code (format4_build_refuted, finding F-2). The model is "
                 "tied to the code on every run: ~1300 small mappings, ~450 arbitrary/malformed decoded format-4 tables, ~300 format-12 tables and "
                 "~225 format-14 tables are run through the real code and through the model (segment arrays, groups, lookups, iterations, skrifa "
                 "Charmap answers compared). Independently of the model, every built table is swept over all 65 536 BMP code points and a boundary "
                 "set beyond against the input mapping through Cmap, Cmap4, Cmap12 and skrifa Charmap (map, mappings), and format-14 answers are "
-                "compared with what was encoded. Format-4 iteration, skrifa Charmap selection/map/mappings and format-14 lookup have a model that "
+                "compared with what was encoded. Format-4 iteration (hence Charmap::mappings of BMP-only fonts) and format-14 lookup have a model that "
                 "is checked against the code but no Coq theorem: partial for those."),
     level_note=("Trusted: Coq kernel; the hand-written model coq/C08/Model.v at the level of decoded arrays (its agreement with the Rust code is "
                 "checked by vm_compute on every run, not proved; the byte codec of the compiled table is C04's business and is exercised here only "
@@ -30,7 +31,7 @@ SPEC = dict(
               "read-fonts/src/tables/cmap.rs: Cmap::map_codepoint, Cmap4::{map_codepoint,lookup_glyph_id,code_range}, Cmap4Iter, Cmap12::{map_codepoint,lookup_glyph_id,group}, Cmap12Iter (+Cmap12IterLimits), Cmap14::map_variant (textbook binary search over well-formed tables)",
               "skrifa/src/charmap.rs: MappingSelection::new (codepoint subtable choice), Charmap::{map,mappings}, CodepointSubtable::{map,map_impl}"],
     not_covered=["cmap4_iter_exact (Cmap4Iter yields exactly the BMP pairs plus the sentinel pair (0xFFFF,0)): model + correspondence + oracle only, no Coq theorem",
-                 "charmap_map_answers / charmap_mappings_exact (skrifa selection and .notdef filtering): model + correspondence + oracle only",
+                 "charmap_mappings_exact for fonts whose selected subtable is format 4 (BMP-only): needs cmap4_iter_exact; model + correspondence + oracle only",
                  "cmap14_answers (default / non-default / absent): implementation-only oracle against the encoded tables plus model correspondence; there is no variation-selector builder in write-fonts/src/tables/cmap.rs",
                  "totality of the builder (exact characterisation of when from_mappings returns a table): only the delta conversion's panic set is characterised (delta_panics_iff) and refuted by witness; the length / id_range_offset overflow panics (F-9) are modelled and exercised, not characterised by a theorem",
                  "optimality of the segment computer (not required by the property); byte-level layout of the compiled table (C04); Cmap14Iter, Cmap::closure_glyphs; symbol-encoded fonts (PUA remap) are modelled but never produced by from_mappings"],
